@@ -33,18 +33,21 @@ FPredictable ==
   \A i \in 1..Len(T.frows) :
      IsPrefixOfT(T.fprefix \o UnCamel(T.frows[i].name_cp), T.frows[i].fname_cp)
 
+\* scopes whose fortran_generic entries change the rank of an argument get one more C entry point per such
+\* entry (same C parameter types): the signature-level clauses do not apply, the name-level clauses do
+Relaxed == "relaxed" \in DOMAIN T /\ T.relaxed
 Verdict ==
-  IF SetOf(CSigs) # ExpectedC THEN
+  IF ~Relaxed /\ SetOf(CSigs) # ExpectedC THEN
        <<"REJECT", "C entry points do not match the callable signatures",
          IF ExpectedC \ SetOf(CSigs) # {} THEN CHOOSE x \in ExpectedC \ SetOf(CSigs) : TRUE
          ELSE CHOOSE x \in SetOf(CSigs) \ ExpectedC : TRUE>>
-  ELSE IF ~Inj(CSigs) THEN <<"REJECT", "more than one C entry point for a callable signature">>
+  ELSE IF ~Relaxed /\ ~Inj(CSigs) THEN <<"REJECT", "more than one C entry point for a callable signature">>
   ELSE IF ~Inj(Col(T.crows, LAMBDA r : r.cname)) THEN <<"REJECT", "two C entry points share a name">>
-  ELSE IF SetOf(FSigs) # ExpectedF THEN
+  ELSE IF ~Relaxed /\ SetOf(FSigs) # ExpectedF THEN
        <<"REJECT", "Fortran specifics do not match the callable signatures",
          IF ExpectedF \ SetOf(FSigs) # {} THEN CHOOSE x \in ExpectedF \ SetOf(FSigs) : TRUE
          ELSE CHOOSE x \in SetOf(FSigs) \ ExpectedF : TRUE>>
-  ELSE IF ~Inj(FSigs) THEN <<"REJECT", "more than one Fortran specific for a callable signature">>
+  ELSE IF ~Relaxed /\ ~Inj(FSigs) THEN <<"REJECT", "more than one Fortran specific for a callable signature">>
   ELSE IF ~Inj(Col(T.frows, LAMBDA r : r.fname)) THEN <<"REJECT", "two Fortran specifics share a name">>
   ELSE IF \E i \in 1..Len(T.frows) : ~\E j \in 1..Len(T.crows) :
              T.crows[j].cname = T.frows[i].cname /\ T.crows[j].name = T.frows[i].name
